@@ -123,7 +123,3 @@ theorem attempts_linear (regs : Regs) (depth : Nat) (bs : Bytes) :
   attempts_linear_fuel regs depth bs.length bs
 
 end Verif.Proofs.RecvCostP
-
-#print axioms Verif.Proofs.RecvCostP.counting_same_result
-#print axioms Verif.Proofs.RecvCostP.attempts_messages
-#print axioms Verif.Proofs.RecvCostP.attempts_linear
